@@ -16,6 +16,7 @@ void scen_lfht_lin(void);
 void scen_lfht_unique(void);
 void scen_lfht_owner(void);
 void scen_lfht_resize(void);
+void scen_lfht_seq(void);
 
 const struct usim_scenario usim_scenarios[] = {
 	{ "gp", "C01", scen_gp },
@@ -31,5 +32,6 @@ const struct usim_scenario usim_scenarios[] = {
 	{ "lfht_unique", "C06", scen_lfht_unique },
 	{ "lfht_owner", "C07", scen_lfht_owner },
 	{ "lfht_resize", "C09", scen_lfht_resize },
+	{ "lfht_seq", "C08", scen_lfht_seq },
 };
 const int usim_nscenarios = sizeof(usim_scenarios) / sizeof(usim_scenarios[0]);
